@@ -73,6 +73,17 @@ CHECKS["C13"] = ("exploration",
     "judged (unknown directives, squeezed right-aligned field at the limit, newline inside a truncated line)",
     "DESIGN.md C13")
 
+CHECKS["C12"] = ("exploration",
+    "routing differential test against a declarative filter model + metamorphic comparison (call sites created up "
+    "front vs. at first use) with history shrinking",
+    "Every log call's set of receiving targets and tag is compared with a declarative model (enabled and some "
+    "stored filter selects the site) on histories without overlapping removals, and every history is executed "
+    "twice, with old and with new call sites; deliveries must be identical. Failing histories are shrunk and keyed "
+    "by their features, and the overlap-free part of every history is judged separately so that the two known "
+    "overlap classes hide nothing else.",
+    "custom targets only (routing is target-type independent); regexec as reference for regex filters",
+    "DESIGN.md C12")
+
 REASON_PENDING = "check not registered yet in this revision (implementation in progress, see DESIGN.md section 7)"
 
 
